@@ -445,7 +445,8 @@ def corr_emit(ctx, workdir, cleanup, stats):
             is_model = isinstance(c["proto"], onnx.ModelProto)
             ctx.case(("emit", c["kind"], c["profile"], rename, hyp[k], inj[k], tuple(sorted(set(c.get("templates", [])))), min(obs["statements"], 12)))
             # the names condition of the theorem, cross-checked with the real clean-up on the model's own names
-            if not rename:
+            from harness import c13_variants
+            if not rename and not (c13_variants.detect()["unique_names"] and M.names_collide(c["proto"])):
                 names = G.all_names(c["proto"])
                 real_free = len({cleanup(n) for n in names}) == len(set(names))
                 if real_free and inj[k] == "false" and not any(re.fullmatch(r"_\d+", cleanup(n)) for n in names):
